@@ -53,9 +53,9 @@ func runA(h History, mode string) *core.Violation {
 	defer r.finish()
 	var pm *pmodel // histories with restarts at any point: the link structure is followed by the model of piv_test.go
 	if hasRestartX(h) {
-		pm = newPModel(len(h.Agents))
+		pm = newPModel(h.nAgents())
 	}
-	for i, op := range h.Ops {
+	for i, op := range h.flat() {
 		if pm == nil {
 			r.apply(op)
 			continue
@@ -610,6 +610,9 @@ func genOps(t *rapid.T, n, nagents int, allowHTTP bool) []Op {
 
 func genA(t *rapid.T) History {
 	var h History
+	if uniformBits(t, 8, "scale-bit") == 0 {
+		return genScaleHistory(t, "a") // scale_test.go: 1 history in 256 (one such history costs about a hundred ordinary ones)
+	}
 	if rapid.IntRange(0, 3).Draw(t, "pivot-trees") == 0 {
 		return genPivotHistory(t, 6, 14) // piv_test.go
 	}
@@ -662,7 +665,7 @@ func numClassOf(s string) string {
 
 func summarizeH(h History) hsum {
 	s := hsum{lkinds: map[string]bool{}, tags: map[string]bool{}, cells: map[string]bool{}}
-	if n := len(h.Ops); n > 0 && h.Ops[n-1].T != "" {
+	if n := len(h.Ops); n > 0 && h.Ops[n-1].T != "" && !strings.HasPrefix(h.Ops[n-1].T, "bulk") {
 		s.craftedLast = true
 	}
 	known := map[int]bool{}
@@ -688,7 +691,7 @@ func summarizeH(h History) hsum {
 	var lnames []string
 	var lk []string
 	var lsec []bool
-	for _, op := range h.Ops {
+	for _, op := range h.flat() {
 		switch op.K {
 		case "ladd":
 			if op.L == nil {
@@ -772,7 +775,7 @@ func summarizeH(h History) hsum {
 		if s.restarts > 0 {
 			s.opsAfterRestart = true
 		}
-		if op.A < 0 || op.A >= len(h.Agents) {
+		if op.A < 0 || op.A >= h.nAgents() {
 			continue
 		}
 		if op.K == "reg" {
@@ -786,8 +789,8 @@ func summarizeH(h History) hsum {
 					s.newAfterRestart = true
 				}
 				everKnown[op.A] = true
-				note(h.Agents[op.A].Meta)
-				if h.Agents[op.A].ID >= 1<<31 {
+				note(h.spec(op.A).Meta)
+				if h.spec(op.A).ID >= 1<<31 {
 					s.hiID = true
 				}
 				s.effective++
@@ -806,7 +809,7 @@ func summarizeH(h History) hsum {
 		}
 		switch op.K {
 		case "connect":
-			if op.B < 0 || op.B >= len(h.Agents) || op.B == op.A {
+			if op.B < 0 || op.B >= h.nAgents() || op.B == op.A {
 				continue
 			}
 			anc := false
@@ -829,8 +832,8 @@ func summarizeH(h History) hsum {
 					s.newAfterRestart = true
 				}
 				everKnown[op.B] = true
-				note(h.Agents[op.B].Meta)
-				if h.Agents[op.B].ID >= 1<<31 {
+				note(h.spec(op.B).Meta)
+				if h.spec(op.B).ID >= 1<<31 {
 					s.hiID = true
 				}
 			} else if p, ok := parent[op.B]; ok && p != op.A {
@@ -839,7 +842,7 @@ func summarizeH(h History) hsum {
 			parent[op.B] = op.A
 			s.linkAdd = true
 		case "disconnect":
-			if op.B >= 0 && op.B < len(h.Agents) && known[op.B] {
+			if op.B >= 0 && op.B < h.nAgents() && known[op.B] {
 				active[op.B] = false // LinkRemove marks the named session "Disconnected"
 			}
 			if p, ok := parent[op.B]; ok && p == op.A {
@@ -909,6 +912,8 @@ func classifyH(h History) core.Class {
 	add(true, "db:"+h.dbMode())
 	pivL, pivBucket := pivotLabels(h) // piv_test.go: histories with restarts at any point
 	cl.Labels = append(cl.Labels, pivL...)
+	scaleL := scaleLabels(h) // scale_test.go
+	cl.Labels = append(cl.Labels, scaleL...)
 	var lk []string
 	for k := range s.lkinds {
 		lk = append(lk, k)
@@ -976,6 +981,9 @@ func classifyH(h History) core.Class {
 	if pivBucket != "" {
 		cl.Fingerprint += "|any-point-restart=" + pivBucket
 	}
+	if len(scaleL) > 0 {
+		cl.Fingerprint += "|" + scaleL[0]
+	}
 	return cl
 }
 
@@ -994,7 +1002,7 @@ func dedup(in []string) []string {
 func TestC10a(t *testing.T) {
 	core.Run(t, core.Spec[History]{
 		Property: "C10", Sub: "a",
-		Rule: "histories of 1-5 registrations followed by 0-25 operations over 1-5 agents (database file, a third each: fresh / created by the current code and opened again / a copy of the committed testdata/golden-schema.db made by the unchanged tree - labels db:fresh|existed|golden; a violation on the golden file only, while its schema differs from a fresh one, is reported as schema|existing-database-differs-from-fresh|<tables>; ids over the whole 32-bit range incl. >= 2^31; metadata strings from {plain, digit-only, leading zeros, exponent-like, hex-like, whitespace-padded, empty, non-ASCII, quotes/SQL, decimal/signed/huge numbers, 300-9000 bytes}): reg, poll, pivot connect/disconnect, COMMAND_CHECKIN with new metadata and key, sleep / kill-date / working-hours callbacks, exit, kill-date, operator mark dead/alive, listener add (SMB, External; HTTP on an ephemeral port at ~1/20 of adds; names, and a third of the pipe names / endpoints, mostly from one per-history family of strings that differ but collide under ASCII/Unicode case, LIKE/glob wildcards vs literal characters, leading/trailing blanks, prefixes, Unicode normalisation or SQL quoting - label listener-names-colliding = two such listeners coexist) / remove / HTTP edit through the operator's DispatchEvent path; about half of the histories also contain one family of crafted updates of one agent (labels upd:*), mostly as the last operations so that the reopen follows at once: BOUNDARY SHIFT - two consecutive updates (key-preserving check-ins, or sleep callbacks) whose rows differ only by characters/digits moved across the boundary of two columns adjacent in the write order of db.AgentUpdate or in agent.AgentInfo (e.g. Username|DomainName bob|'' -> ''|bob, SleepDelay|SleepJitter 1|20 -> 12|0, ProcessName|BaseAddress svc1|23 -> svc|123), everything else incl. LastCallIn byte-identical; SWAP of two same-typed columns; NO-OP update(s) followed by a real one; REVERT A->B->A; each optionally interleaved with repeated identical updates; RESTART operations in the middle (a new Teamserver on the same file restores sessions, links and listeners as Start() does - in (a)/(b) a transcription of its restore loops, in (c) the real Start() in a new process - then the history goes on with registrations of new ids, of restored ids and of ids that were NOT restored because they were inactive, updates, deaths, marks, link and listener changes; several restarts allowed; only performed while every stored link joins two active sessions; labels restart-in-the-middle, restarts:2+, operations-after-restart, re-registration-of-unrestored-inactive-id, new-id-registered-after-restart); then a fresh db.DatabaseNew on the same file read with AgentAll/ParentOf/LinksOf/ListenerAll. Oracle: restored agents == active sessions of the running server, 25 columns equal byte for byte incl. key and IV; ParentOf/LinksOf == the server's Links lists; listener rows == listeners present with every operator-configured field equal. Non-trivial: a death, a link change or a numeric-looking string before the reopen; distinct = (death, link none/add/add+remove, numeric class bucket, listeners none/smb-ext/http/http-edited, colliding names, none/restart/restart+re-registration) ADDED - PIVOT TREES UNDER RESTARTS AT ANY POINT (a quarter of the histories, piv_test.go; label pivot-trees-with-restarts-at-any-point): 3-6 agents, a forest of depth up to 3 built through the real connect path (1-2 registered roots, every other session through the SMB-connect callback of its parent, some registered top-level first and then linked), then 3-14 events aimed by a model of the history at sessions for which they mean something: disconnect of an existing UPPER link (the child has links of its own) or LOWER link, a disconnect reported by a non-parent, death (exit / kill-date / mark dead) of any session, mark alive (preferably of an inactive session), check-in, poll, sleep, registration of an id that has no session in memory (not restored by the last restart), connect of ANY agent below any active session - preferably of a session whose STORED parent has no session in memory since the last restart, and of ids that are not in memory themselves -, listener add/remove, the old conditional restart, and 'restartx' = a restart at ANY point (several per history), i.e. also while a stored link names a session that is stored inactive (the start then restores the child without its parent and leaves the row). Labels: disconnect-of-upper-link, disconnect-of-lower-link, disconnect-reported-by-non-parent, restart-after-upper-link-disconnect, restart-leaves-child-of-unrestored-parent-as-root, reconnect-of-agent-whose-stored-parent-is-not-in-memory (reconnect-path:session-in-memory,stored-parent-not / connect-as-new:stored-parent-not-in-memory), restart-after-reconnect-of-agent-whose-stored-parent-was-not-in-memory, re-parented-after-restart, registration-of-unrestored-id, registration-of-unrestored-parent-with-stored-children, unrestored-id-registers-through-a-pivot, mark-alive-of-inactive-session, death-after-restart, connect-reported-by-inactive-session, restarts-at-any-point:2+, pivot-depth:n. Oracle for these histories (agents, 25 columns, key/IV and listeners as before): after EVERY restart the restored sessions == the sessions active before it, and the parent and the Links of every restored session == the pairs given by the link events of the history (connect(A,B) makes A the one stored parent of B; a disconnect reported by the parent or a death of either end while the server holds the link removes it; a session whose parent is not restored comes back as a root and gets its parent back when the parent is active again at a later start - what the unchanged tree does, followed operation by operation by pmodel, validated against it by TestC10PivModel); TS_Links never holds two rows for one child (signature links|two-rows-for-one-child); the final reopen is compared with the same model (signatures any-point-restart|...). The fingerprint of these histories gets a suffix any-point-restart=<plain | orphan+restart | upper-cut+restart | dangling-reconnect | dangling-reconnect+restart>[+parent-back] ADDED - LISTENER KIND x NAME CLASS PRODUCT (about a third of the listener adds, lname_test.go; label listener-kind-x-name-class-product): kind from {smb, ext, http, https = HTTP with Secure=true, for which HTTP.Start() generates an RSA certificate and writes it below <loot>/listener/<name without [^a-zA-Z0-9]>/ BEFORE it announces and stores the listener; HTTPS 3/32 and plain HTTP 2/32 of these adds} drawn independently of the name class from {ascii; sql = the collision families above; no-alnum = no ASCII letter or digit at all: CJK / Cyrillic / Greek / Arabic, punctuation only, blanks only, emoji, mixed; sanitise = names of one per-history base that become the SAME string once everything but [a-zA-Z0-9] is removed (a-b, a_b, a b, ab, a/b, a.b; label listener-names-sanitise-to-the-same-string when two such listeners coexist, two-https-listeners-share-a-certificate-directory); long = 100-400 characters, the sanitised rest <= 255 or > 255 bytes; path = ../x, a/b, .., ., /abs, x\\y, ~/x, x/, //x}; both drawn so that every cell is about equally likely (rapid prefers range ends). Labels lcell:https x <class>, listener:https; because the evidence keeps the 60 most frequent labels only, the whole matrix is counted into extra.listener_kind_x_name_class@<shard> (one key per shard, to be summed; each https x class cell >= 20 per quick run). Oracle unchanged: every listener the server holds after the add (t.Listeners) has its row with every operator-configured field incl. Secure, nothing else has; a missing HTTPS listener is reported as listeners|not-restored|https|<name-sanitises-to>255-bytes | name-without-ascii-letter-or-digit | long-name | name-with-path-separators | other-name>",
+		Rule: "histories of 1-5 registrations followed by 0-25 operations over 1-5 agents (database file, a third each: fresh / created by the current code and opened again / a copy of the committed testdata/golden-schema.db made by the unchanged tree - labels db:fresh|existed|golden; a violation on the golden file only, while its schema differs from a fresh one, is reported as schema|existing-database-differs-from-fresh|<tables>; ids over the whole 32-bit range incl. >= 2^31; metadata strings from {plain, digit-only, leading zeros, exponent-like, hex-like, whitespace-padded, empty, non-ASCII, quotes/SQL, decimal/signed/huge numbers, 300-9000 bytes}): reg, poll, pivot connect/disconnect, COMMAND_CHECKIN with new metadata and key, sleep / kill-date / working-hours callbacks, exit, kill-date, operator mark dead/alive, listener add (SMB, External; HTTP on an ephemeral port at ~1/20 of adds; names, and a third of the pipe names / endpoints, mostly from one per-history family of strings that differ but collide under ASCII/Unicode case, LIKE/glob wildcards vs literal characters, leading/trailing blanks, prefixes, Unicode normalisation or SQL quoting - label listener-names-colliding = two such listeners coexist) / remove / HTTP edit through the operator's DispatchEvent path; about half of the histories also contain one family of crafted updates of one agent (labels upd:*), mostly as the last operations so that the reopen follows at once: BOUNDARY SHIFT - two consecutive updates (key-preserving check-ins, or sleep callbacks) whose rows differ only by characters/digits moved across the boundary of two columns adjacent in the write order of db.AgentUpdate or in agent.AgentInfo (e.g. Username|DomainName bob|'' -> ''|bob, SleepDelay|SleepJitter 1|20 -> 12|0, ProcessName|BaseAddress svc1|23 -> svc|123), everything else incl. LastCallIn byte-identical; SWAP of two same-typed columns; NO-OP update(s) followed by a real one; REVERT A->B->A; each optionally interleaved with repeated identical updates; RESTART operations in the middle (a new Teamserver on the same file restores sessions, links and listeners as Start() does - in (a)/(b) a transcription of its restore loops, in (c) the real Start() in a new process - then the history goes on with registrations of new ids, of restored ids and of ids that were NOT restored because they were inactive, updates, deaths, marks, link and listener changes; several restarts allowed; only performed while every stored link joins two active sessions; labels restart-in-the-middle, restarts:2+, operations-after-restart, re-registration-of-unrestored-inactive-id, new-id-registered-after-restart); then a fresh db.DatabaseNew on the same file read with AgentAll/ParentOf/LinksOf/ListenerAll. Oracle: restored agents == active sessions of the running server, 25 columns equal byte for byte incl. key and IV; ParentOf/LinksOf == the server's Links lists; listener rows == listeners present with every operator-configured field equal. Non-trivial: a death, a link change or a numeric-looking string before the reopen; distinct = (death, link none/add/add+remove, numeric class bucket, listeners none/smb-ext/http/http-edited, colliding names, none/restart/restart+re-registration) ADDED - PIVOT TREES UNDER RESTARTS AT ANY POINT (a quarter of the histories, piv_test.go; label pivot-trees-with-restarts-at-any-point): 3-6 agents, a forest of depth up to 3 built through the real connect path (1-2 registered roots, every other session through the SMB-connect callback of its parent, some registered top-level first and then linked), then 3-14 events aimed by a model of the history at sessions for which they mean something: disconnect of an existing UPPER link (the child has links of its own) or LOWER link, a disconnect reported by a non-parent, death (exit / kill-date / mark dead) of any session, mark alive (preferably of an inactive session), check-in, poll, sleep, registration of an id that has no session in memory (not restored by the last restart), connect of ANY agent below any active session - preferably of a session whose STORED parent has no session in memory since the last restart, and of ids that are not in memory themselves -, listener add/remove, the old conditional restart, and 'restartx' = a restart at ANY point (several per history), i.e. also while a stored link names a session that is stored inactive (the start then restores the child without its parent and leaves the row). Labels: disconnect-of-upper-link, disconnect-of-lower-link, disconnect-reported-by-non-parent, restart-after-upper-link-disconnect, restart-leaves-child-of-unrestored-parent-as-root, reconnect-of-agent-whose-stored-parent-is-not-in-memory (reconnect-path:session-in-memory,stored-parent-not / connect-as-new:stored-parent-not-in-memory), restart-after-reconnect-of-agent-whose-stored-parent-was-not-in-memory, re-parented-after-restart, registration-of-unrestored-id, registration-of-unrestored-parent-with-stored-children, unrestored-id-registers-through-a-pivot, mark-alive-of-inactive-session, death-after-restart, connect-reported-by-inactive-session, restarts-at-any-point:2+, pivot-depth:n. Oracle for these histories (agents, 25 columns, key/IV and listeners as before): after EVERY restart the restored sessions == the sessions active before it, and the parent and the Links of every restored session == the pairs given by the link events of the history (connect(A,B) makes A the one stored parent of B; a disconnect reported by the parent or a death of either end while the server holds the link removes it; a session whose parent is not restored comes back as a root and gets its parent back when the parent is active again at a later start - what the unchanged tree does, followed operation by operation by pmodel, validated against it by TestC10PivModel); TS_Links never holds two rows for one child (signature links|two-rows-for-one-child); the final reopen is compared with the same model (signatures any-point-restart|...). The fingerprint of these histories gets a suffix any-point-restart=<plain | orphan+restart | upper-cut+restart | dangling-reconnect | dangling-reconnect+restart>[+parent-back] ADDED - LISTENER KIND x NAME CLASS PRODUCT (about a third of the listener adds, lname_test.go; label listener-kind-x-name-class-product): kind from {smb, ext, http, https = HTTP with Secure=true, for which HTTP.Start() generates an RSA certificate and writes it below <loot>/listener/<name without [^a-zA-Z0-9]>/ BEFORE it announces and stores the listener; HTTPS 3/32 and plain HTTP 2/32 of these adds} drawn independently of the name class from {ascii; sql = the collision families above; no-alnum = no ASCII letter or digit at all: CJK / Cyrillic / Greek / Arabic, punctuation only, blanks only, emoji, mixed; sanitise = names of one per-history base that become the SAME string once everything but [a-zA-Z0-9] is removed (a-b, a_b, a b, ab, a/b, a.b; label listener-names-sanitise-to-the-same-string when two such listeners coexist, two-https-listeners-share-a-certificate-directory); long = 100-400 characters, the sanitised rest <= 255 or > 255 bytes; path = ../x, a/b, .., ., /abs, x\\y, ~/x, x/, //x}; both drawn so that every cell is about equally likely (rapid prefers range ends). Labels lcell:https x <class>, listener:https; because the evidence keeps the 60 most frequent labels only, the whole matrix is counted into extra.listener_kind_x_name_class@<shard> (one key per shard, to be summed; each https x class cell >= 20 per quick run). Oracle unchanged: every listener the server holds after the add (t.Listeners) has its row with every operator-configured field incl. Secure, nothing else has; a missing HTTPS listener is reported as listeners|not-restored|https|<name-sanitises-to>255-bytes | name-without-ascii-letter-or-digit | long-name | name-with-path-separators | other-name> ADDED - SCALE (1 history in 256, scale_test.go; labels scale, scale:<what>:<bucket> with what in {sessions-restored, links-restored, inactive-sessions-stored, listeners, restarts, value-bytes} and buckets 64-129 / 255-513 / 999-1025 / 2047-4097 / 8191+): 2-3 listed agents plus a BULK of derived agents (ids BulkBase+j with BulkBase in {0x400, 0x100000, 0x7ffffe00 = across 2^31, 0xfff00000}); bulk operations (bulkreg, bulktree star / chains of 2-16 / random parents, bulkmark markdead|exit|markalive, bulkladd smb|ext|mixed, bulkrestart) are expanded by History.flat() into the ordinary operations, so every one of them takes the same real path as in the small histories (DEMON_INIT through handlers.(*External).Request, SMB-connect callbacks of the parents, operator packages); the count is drawn from the threshold-adjacent pool {63,64,65,127,128,129,255,256,257,511,512,513,999,1000,1001,1023,1024,1025,2047,2048,2049,4095,4096,4097} cut at what one case can afford (quick: 1025 sessions / 1025 listeners / 129 restarts / 8193 bytes of one stored host name; thorough: 4097 sessions and listeners), half of the draws from the six largest affordable values, half from the whole pool; combinations {sessions with links (half of the cases), sessions, sessions + a pool-sized number of INACTIVE sessions (the first or the last registered ones marked dead / exited), listeners, sessions + listeners, restarts}; the bulk brings the number of ACTIVE sessions to the pool value exactly (optionally in two parts with ordinary operations in the middle); ordinary operations of the existing generator (on the listed agents and on random bulk agents) run before, in the middle of and after the bulk; a restart at any point follows the bulk, then 1-4 ordinary operations, then (half of the cases) another restart. Oracle unchanged (agents and all 25 columns, key/IV, links by the model of the link events after every restart and at the end, one row per child, listeners)",
 		Gen:   genA, Check: checkA, Classify: classifyH,
 		Assumptions: []string{
 			"reference for 'what had happened' is the state the running server holds in memory when the last operation returned; callbacks are delivered through agent.TaskDispatch, registrations and polls through handlers.(*External).Request",
@@ -1002,6 +1010,8 @@ func TestC10a(t *testing.T) {
 			"histories with restarts at any point: a connect naming a session that is an ancestor of the sender by the STORED rows (possible once a stored parent came back by registration without its link) is not delivered either - on the unchanged tree it stores a cycle that the next start turns into a cyclic Parent chain (C09's subject; shown by TestC10PivCycle)",
 			"for histories with restarts at any point the reference for the parent/child pairs is the sequence of link events (model pmodel in piv_test.go), not the server's Links lists: after such a restart the lists lack the links whose parent was not restored while their rows are still stored",
 			"HTTPS listeners: certificates generated by the server only (the operator's Listener/Add package has no Cert/Key field; paths given in the profile are not stored); where the certificate files go is not part of the oracle (looked at with TestC10CertFiles: always inside <loot>/listener, in its root for names without ASCII letter or digit, shared by names that sanitise to the same string)",
+			"(a) and (b) restart through pvx.(*World).Reopen, a transcription of the restore loops of (*Teamserver).Start() (AgentAll -> AgentAdd, ParentOf / LinksOf per agent, ListenerAll -> ListenerStart): a change inside Start() itself - e.g. another way of reading the links - is visible to (c) only, which runs the real Start() in a child process",
+			"scale histories: counts are cut at what one case can afford (see Rule); the teamserver's own per-operation cost grows with the number of sessions (table scans without index, linear searches), about 2 s for 1025 registrations and 10-30 s for 4097",
 			"list-valued listener fields contain no empty element and no ', ' (the operator dialog joins and the server splits on ', ')",
 			"database on tmpfs when available; reopening happens in the same process after closing nothing (the server's handle stays open, as after a crash the file is all there is)",
 		},
